@@ -10,6 +10,9 @@ B  The driver identifies which protocol the real processBdReq follows (read lock
    compared at every quiescent step, completion within a bound, answers inside A's or B's subnets in full and
    equal to what the specification computed.  A behaviour the as-implemented instance ends in a deadlock must
    deadlock the real code too - that (a real-code outcome) is what is reported.
+D  The REAL main() of cmd/registration-server, started once and reloaded by SIGHUP (subnet file B, a malformed file, A, B) while
+   registrations arrive over HTTP: every reload's outcome must become visible, every request must be answered from one set in full; the
+   recorded windows are validated by Trace_RegistrarLocks.
 C  Ungated seeded stress (concurrent requests x reloads) with and without -race; per-call start/end traces are
    validated by Trace_RegistrarLocks against the "single" (intended) instance; one corrupted trace must be
    rejected.
@@ -236,6 +239,36 @@ def run(ctx):
                 traces_ok += len(traces)
                 all_traces += traces
         ctx.stage("C_" + tag, traces=len(traces), heavy=heavy[0] if heavy else None, stalls=len(stalls))
+    # ---------------------------------------------------------------- D: the process itself.  The REAL main() of the registration
+    # server is reloaded the way an operator does it - SIGHUP - through the scenario of Trace_RegistrarLocks.cfg (file B, a malformed
+    # file, file A, file B) while registrations keep arriving over HTTP; the recorded windows are validated by the same trace spec.
+    dout = os.path.join(ctx.scratch, "regserver_reload.ndjson")
+    resd = ctx.go_test("cmd/registration-server", ["common/vcommon_test.go", "cmd_regserver/reload_verif_test.go"], "main",
+                       "^TestVerifRegserverReload$", env={"VERIF_OUT": dout}, timeout=300, cwd_rel="cmd/registration-server")
+    drows = ctx.read_results(dout)
+    dsum = [x for x in drows if x.get("kind") == "summary"]
+    if not dsum or [x for x in drows if x.get("kind") == "infra"]:
+        raise vlib.InfraError("registration-server driver did not finish:\n%s\n%s" % ([x for x in drows if x.get("kind") == "infra"], resd["out"][-3000:]))
+    for x in drows:
+        if x.get("kind") == "stall":
+            ctx.violation("process:reload-never-completed", "the real registration server, reloaded by SIGHUP: %s" % x["what"],
+                          {k: v for k, v in x.items() if k != "events"})
+    for b in (dsum[0]["background_bad"] or [])[:5]:
+        ctx.violation("process:request:%s" % b.split(":")[0], "a registration running during the SIGHUP reloads of the real server: %s" % b, dsum[0])
+    ptr = [[{k: v for k, v in e.items() if k != "err"} for e in x["events"] if e["a"] != "Reset"] for x in drows if x.get("kind") == "trace"]
+    if ptr and not dsum[0]["stalled"]:
+        sd = ctx.spec_copy("RegistrarLocks")
+        ok, reached, total_ev, tr = ctx.validate_traces(sd, "Trace_RegistrarLocks.tla", "Trace_RegistrarLocks.cfg", ptr, timeout=600)
+        if not ok:
+            flat = [{"a": "Reset"}] + ptr[0]
+            bad = flat[reached] if reached < len(flat) else None
+            ctx.violation("process:trace:%s" % (tr["inv"] or "rejected:%s" % (bad or {}).get("a")),
+                          "the SIGHUP-driven run of the real registration server is not a behaviour of RegistrarLocks.tla at event %d: %s"
+                          % (reached, json.dumps(bad)), {"event": bad, "previous": flat[max(0, reached - 8):reached]})
+        else:
+            traces_ok += 1
+    ctx.stage("D", sighup_reloads=4, background_requests=dsum[0]["background_requests"], stalled=dsum[0]["stalled"])
+    ctx.log("D: real main() reloaded by SIGHUP (B, malformed, A, B) with %d registrations in the background" % dsum[0]["background_requests"])
     if all_traces:
         # binding demonstration: a dual-stack answer mixing the two files must be rejected
         bad = copy.deepcopy(all_traces[:5])
